@@ -60,6 +60,15 @@ def check(run, prog, tier):
     run.rule("C04-B9", "the system-bath operators (plain arrays given in the site basis) are combined with basis-managed data only "
                        "where the basis in force is established", minimum=6)
     rule_B9(run, prog)
+    run.rule("C04-B10", "basis-managed classes keep nothing computed from their managed data across a change of basis (stored "
+                        "results are reset by transform())", minimum=6)
+    from . import memorule
+    LSQ = "quantarhei.qm.liouvillespace."
+    memorule.check(run, prog, "C04-B10", [LSQ + "redfieldtensor.RedfieldRelaxationTensor", LSQ + "tdredfieldtensor.TDRedfieldRelaxationTensor",
+                                          LSQ + "lindbladform.LindbladForm", LSQ + "relaxationtensor.RelaxationTensor",
+                                          LSQ + "superoperator.SuperOperator", "quantarhei.qm.hilbertspace.operators.Operator",
+                                          "quantarhei.qm.hilbertspace.hamiltonian.Hamiltonian", "quantarhei.qm.hilbertspace.dmoment.TransitionDipoleMoment"],
+                   "the object then presents parts of itself in different bases inside a context")
     run.rule("C04-B7", "a state handed out by at() of an evolution owns its data (it is basis-managed on its own)", minimum=2)
     from . import handout
     for q, ctor in (("quantarhei.qm.propagators.dmevolution.DensityMatrixEvolution", "DensityMatrix"),
